@@ -305,6 +305,8 @@ def finish(ctx, mod):
                 continue
             if "key_prefix" in e and not v["key"].startswith(e["key_prefix"]):
                 continue
+            if "key_suffix" in e and not v["key"].endswith(e["key_suffix"]):
+                continue
             if "key" not in e and "key_prefix" not in e:
                 continue
             m = e.get("match")
